@@ -101,4 +101,14 @@ def WF : Msg → Prop
   | .request => True
   | .status l => WFList l
 
+/-- run-time test of `WFList` -/
+def wfListBool (l : List AcTimerStatusData) : Bool :=
+  (l.map (·.ac_number) == [0, 1, 2, 3]) &&
+    l.all (fun d => wfStateBool d.on_timer && wfStateBool d.off_timer)
+
+/-- run-time test of `WF` -/
+def wfBool : Msg → Bool
+  | .request => true
+  | .status l => wfListBool l
+
 end PyAirtouch.Model.At4.X37
